@@ -1,0 +1,304 @@
+// Copyright 2023 The Go Authors. All rights reserved.
+// Use of this source code is governed by a BSD-style
+// license that can be found in the LICENSE file.
+
+//go:build verif && (!goexperiment.jsonv2 || !go1.25)
+
+package json
+
+import (
+	"reflect"
+	"unsafe"
+)
+
+// (the import is used by the extern signatures in the contract comments)
+var (
+	_ reflect.Value
+	_ unsafe.Pointer
+)
+
+// Contracts for the raw fast paths of the arshal layer. A marshaler that appends
+// the text of a value directly to the encoder's buffer and bumps the element count
+// (xe.Tokens.Last.Increment()) bypasses Encoder.WriteToken and with it the
+// grammar check. Such a bypass refines WriteToken only where WriteToken could not
+// have failed or behaved differently: the encoder must not be expecting an object
+// name (a non-string there is ErrNonStringName, a string needs the duplicate-name
+// check) and no whitespace option may be in force (WriteToken would indent).
+//
+// The closures are reflection code: their contracts are assertions-only (the
+// run-time checks of the closure itself and the preconditions of the functions it
+// calls are assumed; reflect getters are assumed not to touch the encoder), so
+// what is decided is exactly: on every path that reaches the bypass, the guard
+// that makes it legal has been evaluated to true and nothing in between could
+// have changed the encoder's position.
+
+//@ extern reflect.(Value).Bool() (result bool)
+//@ trusted reflect getter: pure with respect to the heap the contracts speak about
+
+//@ extern reflect.(Value).Int() (result int64)
+//@ trusted reflect getter: pure with respect to the heap the contracts speak about
+
+//@ extern reflect.(Value).Uint() (result uint64)
+//@ trusted reflect getter: pure with respect to the heap the contracts speak about
+
+//@ extern reflect.(Value).Float() (result float64)
+//@ trusted reflect getter: pure with respect to the heap the contracts speak about
+
+//@ extern reflect.(Value).String() (result string)
+//@ trusted reflect getter: pure with respect to the heap the contracts speak about
+
+//@ extern reflect.(Value).Len() (result int)
+//@ trusted reflect getter: pure with respect to the heap the contracts speak about
+
+//@ extern reflect.(Value).IsNil() (result bool)
+//@ trusted reflect getter: pure with respect to the heap the contracts speak about
+
+//@ extern math.IsNaN(f float64) (result bool)
+//@ trusted math
+
+//@ extern strconv.AppendBool(dst []byte, b bool) (result []byte)
+//@ trusted strconv: appends "true" or "false"
+//@ modifies dst[len(dst):cap(dst)]
+//@ ensures sameOrFresh(result, dst) && len(result) >= len(dst)+4
+
+//@ func makeBoolArshaler$1
+//@ property C02
+//@ assertions-only reflection closure: only the legality of the raw fast path is decided
+//@ requires enc != nil && mo != nil
+//@ modifies everything
+//@ at call xe.Tokens.Last.Increment#0 assert-before bypass-legal: !xe.Tokens.Last.NeedObjectName() && !mo.Flags.Get(jsonflags.AnyWhitespace)
+
+//@ func makeStringArshaler$1
+//@ property C02
+//@ assertions-only reflection closure: only the legality of the raw fast path is decided
+//@ requires enc != nil && mo != nil
+//@ modifies everything
+//@ at call xe.Tokens.Last.Increment#0 assert-before bypass-legal: !xe.Tokens.Last.NeedObjectName() && !mo.Flags.Get(jsonflags.AnyWhitespace)
+
+//@ func makeIntArshaler$1
+//@ property C02
+//@ assertions-only reflection closure: only the legality of the raw fast path is decided
+//@ requires enc != nil && mo != nil
+//@ modifies everything
+//@ at call xe.Tokens.Last.Increment#0 assert-before bypass-legal: !xe.Tokens.Last.NeedObjectName() && !mo.Flags.Get(jsonflags.AnyWhitespace)
+
+//@ func makeUintArshaler$1
+//@ property C02
+//@ assertions-only reflection closure: only the legality of the raw fast path is decided
+//@ requires enc != nil && mo != nil
+//@ modifies everything
+//@ at call xe.Tokens.Last.Increment#0 assert-before bypass-legal: !xe.Tokens.Last.NeedObjectName() && !mo.Flags.Get(jsonflags.AnyWhitespace)
+
+//@ func makeFloatArshaler$1
+//@ property C02
+//@ assertions-only reflection closure: only the legality of the raw fast path is decided
+//@ requires enc != nil && mo != nil
+//@ modifies everything
+//@ at call xe.Tokens.Last.Increment#0 assert-before bypass-legal: !xe.Tokens.Last.NeedObjectName() && !mo.Flags.Get(jsonflags.AnyWhitespace)
+
+//@ func makeMapArshaler$2
+//@ property C02
+//@ assertions-only reflection closure: only the legality of the raw fast path is decided
+//@ requires enc != nil && mo != nil
+//@ modifies everything
+//@ at call xe.Tokens.Last.Increment#0 assert-before bypass-legal: !xe.Tokens.Last.NeedObjectName() && !mo.Flags.Get(jsonflags.AnyWhitespace)
+
+//@ func makeSliceArshaler$2
+//@ property C02
+//@ assertions-only reflection closure: only the legality of the raw fast path is decided
+//@ requires enc != nil && mo != nil
+//@ modifies everything
+//@ at call xe.Tokens.Last.Increment#0 assert-before bypass-legal: !xe.Tokens.Last.NeedObjectName() && !mo.Flags.Get(jsonflags.AnyWhitespace)
+
+//@ func marshalObjectAny
+//@ property C02
+//@ assertions-only map iteration and reflection: only the legality of the raw fast path is decided
+//@ requires enc != nil && mo != nil
+//@ modifies everything
+//@ at call xe.Tokens.Last.Increment#0 assert-before bypass-legal: !xe.Tokens.Last.NeedObjectName() && !mo.Flags.Get(jsonflags.AnyWhitespace)
+
+//@ func marshalArrayAny
+//@ property C02
+//@ assertions-only reflection: only the legality of the raw fast path is decided
+//@ requires enc != nil && mo != nil
+//@ modifies everything
+//@ at call xe.Tokens.Last.Increment#0 assert-before bypass-legal: !xe.Tokens.Last.NeedObjectName() && !mo.Flags.Get(jsonflags.AnyWhitespace)
+
+// ---------------------------------------------------------------- per-field options are restored on every exit
+//
+// The struct unmarshaler sets the `string`/`format` tag flags in the options it
+// was given (the Decoder's own option struct when UnmarshalDecode is called
+// without options) for the duration of one member value. C19: the coder's own
+// options are intact afterwards, also after an error. Decided here, for the two
+// return statements that lie between the point where the flags are set and the
+// point where they are restored on the normal path: at the return the flags are
+// the ones saved before the tag flags were set.
+
+//@ extern reflect.(Value).Field(i int) (result reflect.Value)
+//@ trusted reflect getter: pure with respect to the heap the contracts speak about
+
+//@ extern reflect.(Value).IsValid() (result bool)
+//@ trusted reflect getter: pure with respect to the heap the contracts speak about
+
+//@ func (addressableValue).fieldByIndex
+//@ trusted NOT PROVED (reflection): walks and may allocate embedded pointers of the destination value; does not touch coder options
+
+//@ func newUnmarshalErrorBefore
+//@ trusted NOT PROVED (builds a SemanticError from the decoder's position; may fill the peek cache): does not modify the coder's options
+//@ ensures result != nil
+
+//@ func isFatalError
+//@ trusted NOT PROVED: pure classification of an error value
+
+//@ func makeStructArshaler$3
+//@ property C19
+//@ assertions-only reflection closure: only the restoration of the per-field tag flags on the error exits is decided
+//@ requires dec != nil && uo != nil
+//@ modifies everything
+//@ at return#13 assert nil-field-exit-restored: uo.Flags == flagsOriginal && uo.Format == ""
+//@ at return#14 assert fatal-error-exit-restored: uo.Flags == flagsOriginal && uo.Format == ""
+
+// The struct marshaler: the error exit right after a member value restores the
+// encoder's options it was given.
+//
+//@ func makeStructArshaler$2
+//@ property C19
+//@ assertions-only reflection closure: only the restoration of the per-field tag flags on the error exit is decided
+//@ requires enc != nil && mo != nil
+//@ modifies everything
+//@ at return#6 assert member-error-exit-restored: mo.Flags == flagsOriginal && mo.Format == ""
+
+// ---------------------------------------------------------------- interface arshaler
+//
+// (C17) A marshal method is invoked on a nil pointer receiver held in an interface
+// only under CallMethodsWithLegacySemantics(true) - the flag's value, not its mere
+// presence; (C02/C17) the untyped fast path marshalValueAny, which consults neither
+// the `string` tag nor StringifyNumbers, is taken only when neither is in force.
+
+//@ extern reflect.(Value).Elem() (result reflect.Value)
+//@ trusted reflect getter: pure with respect to the heap the contracts speak about
+
+//@ extern reflect.(Value).Interface() (result any)
+//@ trusted reflect getter: pure with respect to the heap the contracts speak about
+
+// kindOf: reflect.Value.Kind as an opaque function of the value.
+//
+//@ spec kindOf opaque
+func kindOf(v reflect.Value) reflect.Kind { return v.Kind() }
+
+//@ extern reflect.(Value).Kind() (result reflect.Kind)
+//@ trusted reflect getter: pure with respect to the heap the contracts speak about
+//@ ensures result == kindOf(recv)
+
+//@ spec asMarshalers
+func asMarshalers(x any) *Marshalers {
+	m, _ := x.(*Marshalers)
+	return m
+}
+
+//@ func makeInterfaceArshaler$1
+//@ property C17
+//@ assertions-only reflection closure: only the guards of the nil-receiver wrapping and of the untyped fast path are decided
+//@ requires enc != nil && mo != nil
+//@ modifies everything
+//@ at call newAddressableValue#0 assert-before nil-receiver-call-only-legacy: mo.Flags.Get(jsonflags.CallMethodsWithLegacySemantics)
+//@ at call marshalValueAny#0 assert-before any-fast-path-legal: !mo.Flags.Get(jsonflags.StringifyNumbers | jsonflags.TagFlags)
+//@ at call marshalValueAny#0 assert-before any-fast-path-no-user-marshalers: mo.Marshalers == nil || !asMarshalers(mo.Marshalers).fromAny
+
+// ---------------------------------------------------------------- fromAny is recorded by every constructor
+//
+// (C17) makeInterfaceArshaler stays off the untyped fast path only if the caller's
+// Marshalers/Unmarshalers value says that one of its functions may apply to a
+// value held in an `any` (fromAny). Every constructor must record it.
+
+// fromAnyOf: castableToFromAny as an opaque function of the type.
+//
+//@ spec fromAnyOf opaque
+func fromAnyOf(t reflect.Type) bool { return castableToFromAny(t) }
+
+//@ func castableToFromAny
+//@ trusted NOT PROVED (reflection): a pure function of the type
+//@ ensures result == fromAnyOf(to)
+
+//@ func MarshalFunc
+//@ property C17
+//@ assertions-only generic constructor over reflect: only the fromAny bit of the result is decided
+//@ modifies everything
+//@ at return#0 assert from-any-recorded: result != nil && result.fromAny == fromAnyOf(t)
+
+//@ func MarshalToFunc
+//@ property C17
+//@ assertions-only generic constructor over reflect: only the fromAny bit of the result is decided
+//@ modifies everything
+//@ at return#0 assert from-any-recorded: result != nil && result.fromAny == fromAnyOf(t)
+
+//@ func UnmarshalFunc
+//@ property C17
+//@ assertions-only generic constructor over reflect: only the fromAny bit of the result is decided
+//@ modifies everything
+//@ at return#0 assert from-any-recorded: result != nil && result.fromAny == fromAnyOf(t)
+
+//@ func UnmarshalFromFunc
+//@ property C17
+//@ assertions-only generic constructor over reflect: only the fromAny bit of the result is decided
+//@ modifies everything
+//@ at return#0 assert from-any-recorded: result != nil && result.fromAny == fromAnyOf(t)
+
+// ---------------------------------------------------------------- byte arrays as arrays, on both sides
+//
+// (C04) Under FormatByteArrayAsArray(true) Marshal writes a Go [N]byte as a JSON array
+// of numbers; Unmarshal must then read one. On both sides (no explicit format tag): the base-N string path is
+// never reached for an array value while that option is in force (whatever cheap
+// presence test guards the option handling).
+
+//@ func makeBytesArshaler$1
+//@ theory bv
+//@ property C04
+//@ assertions-only reflection closure: only the dispatch on FormatByteArrayAsArray is decided
+//@ requires enc != nil && mo != nil && mo.Flags.Values&^mo.Flags.Presence == 0
+//@ modifies everything
+//@ at call xe.AppendRaw#0 assert-before array-format-honoured: !(mo.Flags.Get(jsonflags.FormatByteArrayAsArray) && !mo.Flags.Has(jsonflags.FormatTag) && kindOf(va.Value) == reflect.Array)
+
+//@ func makeBytesArshaler$2
+//@ theory bv
+//@ property C04
+//@ assertions-only reflection closure: only the dispatch on FormatByteArrayAsArray is decided
+//@ requires dec != nil && uo != nil && uo.Flags.Values&^uo.Flags.Presence == 0
+//@ modifies everything
+//@ at call xd.ReadValue#0 assert-before array-format-honoured: !(uo.Flags.Get(jsonflags.FormatByteArrayAsArray) && !uo.Flags.Has(jsonflags.FormatTag) && kindOf(va.Value) == reflect.Array)
+
+// ---------------------------------------------------------------- cycle-detection keys
+//
+// (C18) visitPointer records and leavePointer removes the same key (type, pointer,
+// slice length), so the set of seen pointers - which survives reset and travels
+// with a pooled encoder - is empty again when a marshal call returns. Decided
+// here: both build their key with the slice length of the value.
+
+// sliceLenOf: sliceLen as an opaque function of the value.
+//
+//@ spec sliceLenOf opaque
+func sliceLenOf(v reflect.Value) int { return sliceLen(v) }
+
+//@ func sliceLen
+//@ trusted NOT PROVED (reflection): the length of a slice value, 0 for other kinds
+//@ ensures result == sliceLenOf(v)
+
+//@ extern reflect.(Value).Type() (result reflect.Type)
+//@ trusted reflect getter: pure with respect to the heap the contracts speak about
+
+//@ extern reflect.(Value).UnsafePointer() (result unsafe.Pointer)
+//@ trusted reflect getter: pure with respect to the heap the contracts speak about
+
+//@ func leavePointer
+//@ property C18
+//@ assertions-only map operations are outside the subset: only the key is decided
+//@ requires m != nil
+//@ modifies everything
+//@ at call delete#0 assert-before key-has-length: p.len == sliceLenOf(v)
+
+//@ func visitPointer
+//@ property C18
+//@ assertions-only map operations are outside the subset: only the key is decided
+//@ requires m != nil
+//@ modifies everything
+//@ at return#1 assert key-has-length: p.len == sliceLenOf(v)
